@@ -121,8 +121,17 @@ def handleC11 : List String → Option String
     let ops ← ops.mapM parseOp11
     some (" ".intercalate ("ok" :: trace11 init ops))
   | "c11.cow" :: ops => do
+    -- a trailing `#i,j,…` selects the positions to print (states inside one implementation call are not observable)
+    let (ops, sel) := match ops.getLast? with
+      | some t => if t.startsWith "#" then (ops.dropLast, some (String.ofList (t.toList.drop 1))) else (ops, none)
+      | none => (ops, none)
     let ops ← ops.mapM parseCow
-    some (" ".intercalate ("ok" :: traceCow cowInit ops))
+    let tr := traceCow cowInit ops
+    match sel with
+    | none => some (" ".intercalate ("ok" :: tr))
+    | some t => do
+      let ks ← parseNatList t
+      some (" ".intercalate ("ok" :: ks.filterMap (fun k => tr[k]?)))
   | ["c11.sections", op] => do
     -- every operation of the model is ONE step of `Model.Versioned.step`, i.e. one critical section under
     -- `_version_lock`: choosing the version and registering the reader, removing a reader and pruning, appending a
